@@ -6,7 +6,7 @@ line-protocol front end of the C14 model: replays an observed linearisation of `
 
   C14 (run OP …)   OP ::= (cr t withCtx pre) | (st t) | (sc t) | (ac a t cb arg) | (rc a t cb) | (cn a t|self)
                          | (u t key km) | (rp t) | (eb t ok|exc|can v) | (cbb t) | (cbe t ok|raises|can)
-                         | (cl t) | (snap)
+                         | (cl t) | (nx t) | (snap)
 
 Output `ok <model tokens> ## <spec tokens>`; the spec column says, per finished task, which callbacks the property
 wants to have run and with which result the task should have finished, and per snapshot which registries entries may
@@ -66,7 +66,14 @@ def stepOp (d : Drv) (x : Sexp) : Option Drv :=
     pure ((ap d (.create t wc pre)).emit1 "c")
   | .list [.atom "st", t] => do
     let t ← t.nat?
-    pure ((ap d (.start t)).emit1 (if d.s.phase t == .created then "s" else "s:bad"))
+    pure ((ap d (.start t)).emit1 (if d.s.phase t == .created && !d.s.u.cancelReq t then "s" else "s:bad"))
+  | .list [.atom "nx", t] => do
+    -- the task ended without ever running `run_coro`: cancelled before its first segment
+    let t ← t.nat?
+    let dead := d.s.phase t == .created && d.s.u.cancelReq t
+    let d' := ap d (.start t)
+    let m := if dead then s!"s:dead:lost={showCbs (specRan d'.s t)}" else "s:bad"
+    pure (d'.emit m "s:dead:lost=()")
   | .list [.atom "sc", t] => do
     let t ← t.nat?
     pure ((ap d (.storeCtx t)).emit1 (if active d.s t then "h" else "h:bad"))
@@ -100,7 +107,7 @@ def stepOp (d : Drv) (x : Sexp) : Option Drv :=
     pure ((ap d (.unique t k km)).emit1 tok)
   | .list [.atom "rp", t] => do
     let t ← t.nat?
-    let ok := !headUnstarted d.s && d.s.u.reaperQ.head? == some t
+    let ok := d.s.u.reaperQ.head? == some t
     pure ((ap d .reap).emit1 (if ok then "r:ok" else "r:bad"))
   | .list [.atom "eb", t, .atom kind, v] => do
     let t ← t.nat?
